@@ -6,6 +6,7 @@
 import SugarModel.Driver.Transcript
 import SugarModel.Spec.Policy
 import SugarModel.Model.AclStep
+import SugarModel.Model.Wire
 namespace Sugar.Driver
 open Sugar Sugar.Acl
 
@@ -206,7 +207,55 @@ def aVerdict (toks : List String) : String :=
         | none => "rej:deleted-user-acted"
         | some t => if Spec.policyAllowed globMatch conn.authenticated (a.get t) ml.m.comm ml.m.cats (fullFootprint ml) then "adm" else "rej:stale-rules"
       else "na"
-    pure s!"{seq} {mv} ## acl={c06} auth={c11} cls={classifyAcl conn.authenticated u ml} shape={String.fromUTF8! (ByteArray.mk n.toArray)}"
+    let nm := String.fromUTF8! (ByteArray.mk (n ++ (if n == b "acl" then 45 :: toLower (cmd.getD 1 []) else [])).toArray)
+    let wire : String × String :=
+      if kind == "panic" then ("rej:panic", s!"{nm}-panic")
+      else if kind == "err" then (if payload.any (fun c => c == 13 || c == 10) then ("rej:malformed", "error-reply-carries-crlf") else ("adm", "-"))
+      else if payload.isEmpty || (parseReply payload).isSome then ("adm", "-")
+      else ("rej:malformed", s!"{nm}-malformed-reply")
+    pure s!"{seq} {mv} ## acl={c06} auth={c11} cls={classifyAcl conn.authenticated u ml} shape={nm} wire={wire.1} wcls={wire.2}"
+  match p.run toks with
+  | .ok (s, _) => s
+  | .error e => s!"? BAD {e}"
+
+/-! ### wire sessions -/
+
+def wVerdict (toks : List String) : String :=
+  let p : P String := do
+    expect "W"
+    let seq ← tok
+    let kind ← tok
+    let nw ← pNat
+    let writes ← rep nw pBytes
+    expect "R"
+    let out ← pBytes
+    expect "H"
+    let hung ← pBool
+    expect "P"
+    let responsive ← pBool
+    expect "L"
+    let alive ← pBool
+    let mv : String :=
+      if kind == "malformed" then "SKIP unmod:malformed-input"
+      else match Wire.serve writes with
+        | .unmod w => s!"SKIP unmod:{w.replace " " "_"}"
+        | .out bs => if bs == out && responsive && !hung then "OK" else s!"DIFF wire model=out({bs.length}B,responsive) impl=({out.length}B,responsive={responsive},hung={hung})"
+        | .hang bs => if bs == out && !responsive then "OK hang" else s!"DIFF wire model=hang-after({bs.length}B) impl=({out.length}B,responsive={responsive})"
+    let complete (w : Bytes) := (Wire.parseStream (w.length + 1) w).isSome
+    let cls : String :=
+      if writes.any (fun w => !w.isEmpty && w.length % 8192 == 0) then "message-multiple-of-8192-blocks-reader"
+      else if writes.any (fun w => match Wire.parseStream (w.length + 1) w with
+          | some cs => cs.length > 1
+          | none => false) then "pipelined-commands-only-first-answered"
+      else if !(writes.all complete) then "command-split-across-writes"
+      else "-"
+    let spec : String :=
+      if !alive then "rej:process-or-listener-dead"
+      else if kind == "malformed" then "adm"
+      else match Wire.expected writes with
+        | none => "uns"
+        | some e => if e == out && responsive then "adm" else "rej:framing"
+    pure s!"{seq} {mv} ## wire={spec} wcls={cls} shape={kind}"
   match p.run toks with
   | .ok (s, _) => s
   | .error e => s!"? BAD {e}"
